@@ -25,6 +25,7 @@ for item in ids:
         for i in range(1, 21):
             cid = "C%02d" % i
             out = sh(f"cd {ROOT} && ./check {cid} quick").stdout
+            assert "checker build failed" not in out and ("quick:" in out or "VIOLATION" in out), "check did not run: " + out[:300]
             if "VIOLATION property=" in out:
                 rules = sorted(set(re.findall(r"\[(C\d\d\.[A-Za-z0-9]+)\]", out)))
                 caught[cid] = rules
